@@ -206,6 +206,8 @@ class HeapMixin:
             raise mk_exc(KeyError, key, where=fr.where())
         if type(obj).__name__ == "Bottom":
             return obj
+        if isinstance(obj, z3.SeqRef) and fr.spec:
+            return obj[z3_of_int(key)]
         if isinstance(obj, SymMsg):
             return self.msg_get(obj, key, fr, required=True)
         if isinstance(obj, SymMap):
